@@ -55,7 +55,7 @@ class _InMemoryConsumer(ConsumerT):
         await asyncio.sleep(0)
         self._started = False
         while self._queue.processing:
-            self._queue.simple.put_nowait(self._queue.processing.pop())
+            self._queue.put_back(self._queue.processing.pop())
         await asyncio.sleep(0)
 
     def __update_delayed(self) -> None:
@@ -88,14 +88,19 @@ class _InMemoryConsumer(ConsumerT):
         soonest = min(self._queue.delayed)
 
         if len(self._queue.delayed[soonest]) == 1:
-            return self._queue.delayed.pop(soonest)[0]
-        return self._queue.delayed[soonest].pop(0)
+            msg = self._queue.delayed.pop(soonest)[0]
+        else:
+            msg = self._queue.delayed[soonest].pop(0)
+        self._queue.taken_from[msg.key.id_] = soonest
+        return msg
 
     def __consume_dead(self) -> Message | None:
         if not self._queue.dead:
             return None
 
-        return self._queue.dead.pop(0)
+        msg = self._queue.dead.pop(0)
+        self._queue.taken_from[msg.key.id_] = "dead"
+        return msg
 
     async def consume(self) -> tuple[RoutingKeyT, str, ParametersT]:
         await asyncio.sleep(0)
